@@ -26,6 +26,8 @@ type sconn struct {
 	seen map[byte]int
 	// times (server side) of the READY/AUTH_SUCCESS that ended the handshake and of the REGISTER reply
 	readyAt, registerAt time.Time
+	// dead: the serve loop has ended (the driver closed the connection)
+	dead bool
 }
 
 // reply queues one response frame.
@@ -98,6 +100,9 @@ func stmtOf(f *memcluster.Frame) string {
 
 func (c *sconn) serve() {
 	defer func() {
+		c.s.mu.Lock()
+		c.dead = true
+		c.s.mu.Unlock()
 		c.pipe.Close()
 		defer func() { recover() }()
 		close(c.out)
